@@ -82,11 +82,11 @@ pub fn c03_k(ctx: &mut Ctx, k: usize) {
             let outp = format!("{}/c03_out.txt", ctx.scratch);
             write_fasta(&inp, &[b"ACGTTGCA".to_vec()]);
             for delim in [",", "\t", " "] {
-                for mmap in [true, false] {
+                for (mmap, threads) in [(true, 1usize), (true, 2), (false, 1), (false, 2), (false, 5)] {
                     ctx.rep.evaluations += 1;
                     let r = guard(|| {
                         let mut oc = OligoComputer::new(inp.clone(), outp.clone(), k);
-                        oc.set_threads(2);
+                        oc.set_threads(threads);
                         oc.set_header(true);
                         oc.set_delim(delim.to_string());
                         oc.set_norm(mmap);
@@ -96,7 +96,7 @@ pub fn c03_k(ctx: &mut Ctx, k: usize) {
                             oc.verif_vectorise_batch()
                         }
                     });
-                    let path_name = if mmap { "mmap" } else { "batch" };
+                    let path_name = if mmap { format!("mmap writer, {threads} thread(s)") } else { format!("batch writer, {threads} thread(s)") };
                     match r {
                         Err(p) => return viol(ctx, "panic", k, format!("header file k={k} {path_name} panicked: {p}"), argv),
                         Ok(Err(e)) => return viol(ctx, "error", k, format!("header file k={k} {path_name}: {e}"), argv),
@@ -387,6 +387,21 @@ pub fn c04(ctx: &mut Ctx) {
                     c04_file_order(ctx, k, recs, mode, threads, oi);
                     nf += 1;
                 }
+            }
+        }
+    }
+    // long records (beyond 64 Ki bases, with lower case, U and ambiguous bytes) through every writer path
+    let long_set: Vec<Vec<u8>> = vec![crate::iters::long_input(70_000, 4), b"ACGU".to_vec(), crate::iters::long_input(66_000, 9), crate::iters::long_input(4097, 1), b"".to_vec(), crate::iters::long_input(140_000, 12)];
+    for k in [1usize, 3, 4] {
+        for (mode, threads) in [("mmap", 3usize), ("batch-norm", 4), ("batch-small", 2), ("counts", 2), ("counts", 1)] {
+            if sh.mine() {
+                let before = ctx.rep.violations.len();
+                c04_file(ctx, k, &long_set, mode, threads);
+                for v in ctx.rep.violations.iter_mut().skip(before) {
+                    v.argv = vec!["case".into(), "C04long".into(), k.to_string(), mode.to_string(), threads.to_string()];
+                    v.desc = format!("[long records] {}", v.desc);
+                }
+                nf += 1;
             }
         }
     }
@@ -904,6 +919,10 @@ pub fn replay(ctx: &mut Ctx, args: &[String]) {
         "C04" => {
             let k: usize = args[2].parse().unwrap();
             c04_one(ctx, &oligo_set(k), "replay", &unhex(&args[1]), true)
+        }
+        "C04long" => {
+            let long_set: Vec<Vec<u8>> = vec![crate::iters::long_input(70_000, 4), b"ACGU".to_vec(), crate::iters::long_input(66_000, 9), crate::iters::long_input(4097, 1), b"".to_vec(), crate::iters::long_input(140_000, 12)];
+            c04_file(ctx, args[1].parse().unwrap(), &long_set, &args[2], args[3].parse().unwrap())
         }
         "C04file" => {
             let orders = c04_orders(if args[4] == "3906" { 5 } else { 6 });
